@@ -218,7 +218,7 @@ def _direct_dense(c):
                 else:
                     from statsmodels.tsa.holtwinters import ExponentialSmoothing as SM
                     r = SM(y, **dict(ctor)).fit(**dict(fitkw))
-                dense = [float(v) for v in r.predict(0, len(c["y"]) + horizon).values]
+                dense = [float(v) if math.isfinite(float(v)) else float("nan") for v in r.predict(0, len(c["y"]) + horizon).values]
     except Exception as e:
         _DENSE[key] = e
         raise
@@ -415,6 +415,8 @@ def _run_adapter(c):
         p = _attempt(go)
     finally:
         setattr(M, name, orig)
+    if not isinstance(p, str):
+        p = p.replace([np.inf, -np.inf], np.nan)            # non-finite results of statsmodels itself: one canonical token
     main = p if isinstance(p, str) else _show_series(p)
     ctor_names, fit_names = [[k for k, _ in part] for part in expected_sm_args(c)]
     flags = []
@@ -728,6 +730,11 @@ def oracle_adapter(c, out):
         return [(site + ":length", "%d forecasts for %d steps" % (len(vals), len(steps)))]
     for h, v in zip(steps, vals):
         exp = dense[n - 1 + h]
+        if exp != exp or exp in (float("inf"), float("-inf")):   # statsmodels itself returns NaN/inf for these options and data
+            ok = v is None or not (float(v) == float(v)) or exp == float(v)
+            if not ok:
+                fails.append((site + ":value", "step %d: adapter %s, statsmodels %r" % (h, show_rat(v), exp)))
+            continue
         if v is None or not close(float(v), Fraction(exp), tol=1e-8):
             fails.append((site + ":value", "step %d: adapter %s, statsmodels built with the same options %r (n=%d %s)" % (h, show_rat(v), exp, n, _opts_line(c))))
     return fails
